@@ -16,7 +16,7 @@ import traceback
 VERIF = os.path.dirname(os.path.dirname(os.path.abspath(__file__)))
 REPO = os.environ.get("VERIF_REPO", "/repo")
 EVIDENCE_DIR = os.environ.get("VERIF_EVIDENCE_DIR") or os.path.join(VERIF, "evidence")
-REPLAY_DIR = os.path.join(VERIF, "out", "replays")
+REPLAY_DIR = os.environ.get("VERIF_REPLAY_DIR") or os.path.join(VERIF, "out", "replays")
 KNOWN_FILE = os.environ.get("VERIF_KNOWN_FILE") or os.path.join(VERIF, "KNOWN_FINDINGS.jsonl")
 
 PROVED, REFUTED, UNKNOWN = "proved", "refuted", "unknown"
@@ -123,7 +123,7 @@ class Ctx:
             self.functions[function]["obligations"] += 1
         if status == UNKNOWN:
             self.undecided.append(name)
-        if sample and len(self.samples) < 12:
+        if sample and (len(self.samples) < 12 or status != PROVED):
             self.samples.append(rec)
         return rec
 
@@ -198,7 +198,8 @@ class Ctx:
             "translation_validation": self.tv,
             "known_findings_matched": [k[0] for k in self.known_hits],
             "notes": self.notes,
-            "samples": self.samples[:12] + [s for g in self.bounded_groups.values() for s in g["samples"][:3]],
+            "obligation_table": [[o["name"], o["status"], o["backend"], o["secs"]] for o in self.obligations],
+            "samples": [x for x in self.samples if x["status"] != PROVED][:20] + [x for x in self.samples if x["status"] == PROVED][:12] + [s for g in self.bounded_groups.values() for s in g["samples"][:3]],
         }
         if self.bounded_groups:
             cov["evaluations"] = evals
